@@ -147,6 +147,8 @@ def obj_body(b, mname):
         return str(b["n"])
     if k == "bomb":
         return "error 'bomb'"
+    if k == "conststr":
+        return "'x'"
     if k == "self":
         return f"self.{b['g']}"
     if k == "dollar":
